@@ -49,6 +49,8 @@ var items = []item{
 	{"close", `</stream:stream>`, kClose},
 	{"stream-error", se, kStreamErr},
 	{"text", `junk`, kBad},
+	{"nbsp", "\u00a0", kBad},
+	{"unicode-spaces", " \u2003\u0085\u3000 ", kBad},
 	{"comment", `<!-- c -->`, kBad},
 	{"procinst", `<?pi x?>`, kBad},
 	{"directive", `<!DOCTYPE x>`, kBad},
@@ -127,7 +129,7 @@ func body(maxItems int) nd.Body {
 				return nd.Result{Skip: true}
 			}
 		}
-		prog := c.Choose(6, "handler-program")
+		prog := c.Choose(7, "handler-program")
 		var names []string
 		var input strings.Builder
 		for _, it := range seq {
@@ -149,7 +151,7 @@ func body(maxItems int) nd.Body {
 		var invs []invocation
 		handler := xmpp.HandlerFunc(func(t xmlstream.TokenReadEncoder, start *xml.StartElement) error {
 			inv := invocation{start: xu.TokString([]xml.Token{*start})}
-			want := []int{0, 1, 1 << 20, 1 << 20, 2, 1 << 20}[prog]
+			want := []int{0, 1, 1 << 20, 1 << 20, 2, 1 << 20, 1 << 20}[prog]
 			var rerr error
 			for i := 0; i < want; i++ {
 				tok, err := t.Token()
@@ -162,6 +164,12 @@ func body(maxItems int) nd.Body {
 				if err != nil {
 					inv.readErr = err.Error()
 					rerr = err
+					if prog == 6 {
+						// ignores the error and keeps reading for a while
+						for k := 0; k < 3; k++ {
+							t.Token()
+						}
+					}
 					break
 				}
 				if tok == nil || i > 10000 {
@@ -182,7 +190,7 @@ func body(maxItems int) nd.Body {
 				t.EncodeToken(xml.EndElement{Name: xml.Name{Space: "urn:r", Local: "r"}})
 			}
 			invs = append(invs, inv)
-			if prog == 5 {
+			if prog == 5 || prog == 6 {
 				return nil // swallows read errors
 			}
 			return rerr
@@ -242,7 +250,7 @@ func body(maxItems int) nd.Body {
 			if g.pastEnd != "" {
 				return fail("handler:reads-past-end", "invocation %d: %s", i, g.pastEnd)
 			}
-			limit := []int{0, 1, 1 << 20, 1 << 20, 2, 1 << 20}[prog]
+			limit := []int{0, 1, 1 << 20, 1 << 20, 2, 1 << 20, 1 << 20}[prog]
 			exp := w.toks
 			if len(exp) > limit {
 				exp = exp[:limit]
@@ -264,7 +272,7 @@ func body(maxItems int) nd.Body {
 		case "error":
 			if serveErr == nil {
 				sig := "serve:stream-level-construct-ignored"
-				if prog == 5 {
+				if prog == 5 || prog == 6 {
 					sig += ":handler-swallows-read-error"
 				}
 				return fail(sig, "Serve returned nil")
